@@ -39,14 +39,14 @@ type attempt struct {
 }
 
 type fakeKDC struct {
-	idx      int
-	port     int
-	udp      *net.UDPConn
-	tcp      *net.TCPListener
-	bu, bt   nBeh
-	log      *[]attempt
-	mu       *sync.Mutex
-	stop     chan struct{}
+	idx    int
+	port   int
+	udp    *net.UDPConn
+	tcp    *net.TCPListener
+	bu, bt nBeh
+	log    *[]attempt
+	mu     *sync.Mutex
+	stop   chan struct{}
 }
 
 func krbErrBytes(code int) []byte {
